@@ -184,6 +184,8 @@ func runC32(t *testing.T, cfgIdx int, clientID string) (n int, outcome string, v
 			cfg := c16cfg()
 			cfg.ClientID = clientID
 			cfg.Predefined = pre
+			// every other configuration connects with a last will (the connect exchange takes another path)
+			cfg.Will = cfgIdx%2 == 1
 			st := stack.New(s, cfg)
 			st.Dial()
 			if c := st.Go("Connect", st.C.Connect); !c.Returned || c.Err != "" {
@@ -281,7 +283,7 @@ func TestC32(t *testing.T) {
 	rep.Coverage["sessions"] = evals
 	rep.Coverage["exhaustive"] = true
 	rep.Coverage["samples"] = samples
-	rep.Coverage["rule"] = "all 81 shared predefined configurations {c1,*} x id{1,2} -> {absent,p/1,p/2} x client id {c1,c2}; each operation on a fresh real client + real gateway session + broker model, after a session of the other client id on the same configuration object: PublishPredefined with raw ids 1..3 and with ids derived by name through GetTopicID (as bisquitt-pub does) at QoS 0/1, Publish on 2-byte names (ASCII, with '/', 2-byte UTF-8 characters), SubscribePredefined 1..3 and Subscribe on the 2-byte names each followed by broker messages (QoS 0/1) on the subscribed name; reference: client-specific entry first, then \"*\". The broker must see exactly the name the client meant (nothing for an id that denotes nothing) and the handler must get the broker's name. distinct_nontrivial = distinct per-configuration logs"
+	rep.Coverage["rule"] = "all 81 shared predefined configurations {c1,*} x id{1,2} -> {absent,p/1,p/2} x client id {c1,c2}; each operation on a fresh real client + real gateway session + broker model (every other configuration connecting with a last will), after a session of the other client id on the same configuration object: PublishPredefined with raw ids 1..3 and with ids derived by name through GetTopicID (as bisquitt-pub does) at QoS 0/1, Publish on 2-byte names (ASCII, with '/', 2-byte UTF-8 characters), SubscribePredefined 1..3 and Subscribe on the 2-byte names each followed by broker messages (QoS 0/1) on the subscribed name; reference: client-specific entry first, then \"*\". The broker must see exactly the name the client meant (nothing for an id that denotes nothing) and the handler must get the broker's name. distinct_nontrivial = distinct per-configuration logs"
 	rep.Assumptions = []string{"default schedule, lossless link", "client and gateway share one configuration object (as the property states)"}
 	rep.Finish()
 }
